@@ -19,7 +19,8 @@ from common import (BIN, ToolError, Work, build_harness, cache_get, cache_put, c
 
 KINDS = {
     "pubsub": {
-        "model": "PubSubRouter", "model_cfg": {"quick": "MC_PubSub_quick.cfg", "thorough": "MC_PubSub_thorough.cfg"},
+        "model": "PubSubRouter",
+        "model_cfg": {"quick": ["MC_PubSub_quick.cfg"], "thorough": ["MC_PubSub_quick.cfg", "MC_PubSub_thorough.cfg"]},
         "gen": "PubSubGen", "gen_cfg": "MC_PubSubGen.cfg", "gen_sim_cfg": "MC_PubSubGen_sim.cfg",
         "bin": "router_pubsub",
         "trace_b": ("Trace_PubSubIface", "Trace_PubSubIface.cfg"),
@@ -32,15 +33,18 @@ KINDS = {
         },
     },
     "reqrep": {
-        "model": "ReqRepRouter", "model_cfg": {"quick": "MC_ReqRep_quick.cfg", "thorough": "MC_ReqRep_thorough.cfg"},
+        "model": "ReqRepRouter",
+        "model_cfg": {"quick": ["MC_ReqRep_routing.cfg", "MC_ReqRep_repliers.cfg", "MC_ReqRep_live.cfg", "MC_ReqRep_faults.cfg"],
+                      "thorough": ["MC_ReqRep_routing.cfg", "MC_ReqRep_repliers.cfg", "MC_ReqRep_live.cfg", "MC_ReqRep_faults.cfg",
+                                   "MC_ReqRep_thorough.cfg", "MC_ReqRep_thorough2.cfg"]},
         "gen": "ReqRepGen", "gen_cfg": "MC_ReqRepGen.cfg", "gen_sim_cfg": "MC_ReqRepGen_sim.cfg",
         "bin": "router_reqrep",
         "trace_b": ("Trace_ReqRepIface", "Trace_ReqRepIface.cfg"),
         "trace_a": None,
-        "devs": [],
+        "devs": ["FixD1", "FixD3", "FixD4", "FixD5", "FixD6", "FixD9", "FixD16"],
         "tiers": {
             "quick": {"gen_env": 4, "gen_cap": 4000, "sim": 1500, "random": 1500, "rand_args": []},
-            "thorough": {"gen_env": 6, "gen_cap": 200000, "sim": 20000, "random": 20000,
+            "thorough": {"gen_env": 5, "gen_cap": 150000, "sim": 20000, "random": 20000,
                          "rand_args": ["--len", "60"]},
         },
     },
@@ -116,18 +120,32 @@ def pipeline(kind, tier):
     t0 = time.time()
     res = {"kind": kind, "tier": tier, "at": time.time(), "cached": False}
     try:
-        # 1. exhaustive model checking of Layer A against Layer B
-        r = tlc(K["model"], K["model_cfg"][tier], work, workers=8, timeout=5400, xmx="16g", coverage=True)
-        log("[%s] TLC %s/%s: %d distinct states, %d generated, depth %d, %.0fs, ok=%s" % (
-            kind, K["model"], K["model_cfg"][tier], r.distinct, r.generated, r.depth, r.wall, r.ok))
-        cov = r.coverage()
-        res["model"] = {"module": K["model"], "cfg": K["model_cfg"][tier], "states": r.distinct,
-                        "transitions": r.generated, "depth": r.depth, "wall_s": round(r.wall, 1),
-                        "ok": r.ok, "errors": r.errors[:5], "violated": r.violated,
-                        "action_coverage": {a: v[1] for a, v in sorted(cov.items())},
-                        "actions_never_taken": sorted(a for a, v in cov.items() if v[1] == 0)}
-        if not r.ok:
-            res["model"]["tail"] = r.out[-6000:]
+        # 1. exhaustive model checking of Layer A against Layer B (configs run concurrently)
+        cfgs = K["model_cfg"][tier]
+        nw = max(2, 16 // max(1, min(len(cfgs), 4)))
+        from concurrent.futures import ThreadPoolExecutor
+        with ThreadPoolExecutor(max_workers=4) as ex_:
+            rs = list(ex_.map(lambda c: tlc(K["model"], c, work, workers=nw, timeout=7200, xmx="12g", coverage=True), cfgs))
+        models = []
+        for c, r in zip(cfgs, rs):
+            log("[%s] TLC %s/%s: %d distinct states, %d generated, depth %d, %.0fs, ok=%s" % (
+                kind, K["model"], c, r.distinct, r.generated, r.depth, r.wall, r.ok))
+            cov = r.coverage()
+            m = {"module": K["model"], "cfg": c, "states": r.distinct,
+                 "transitions": r.generated, "depth": r.depth, "wall_s": round(r.wall, 1),
+                 "ok": r.ok, "errors": r.errors[:5], "violated": r.violated,
+                 "action_coverage": {a: v[1] for a, v in sorted(cov.items())},
+                 "actions_never_taken": sorted(a for a, v in cov.items() if v[1] == 0)}
+            if not r.ok:
+                m["tail"] = r.out[-6000:]
+            models.append(m)
+        res["models"] = models
+        res["model"] = {"ok": all(m["ok"] for m in models),
+                        "states": sum(m["states"] for m in models),
+                        "transitions": sum(m["transitions"] for m in models),
+                        "violated": [v for m in models for v in m["violated"]],
+                        "errors": [e for m in models for e in m["errors"]],
+                        "tail": "\n".join(m.get("tail", "") for m in models)}
 
         # 2. schedules from the model
         scheds = []
@@ -211,9 +229,14 @@ def sensitivity(kind, work):
     K = KINDS[kind]
     out = []
     for d in K["devs"]:
-        cfg = cfg_with(K["model_cfg"]["quick"], work, "dev-%s.cfg" % d, {d: "FALSE"})
-        r = tlc(K["model"], cfg, work, workers=8, timeout=1800, xmx="8g")
-        out.append({"constant": d, "counterexample_found": (not r.ok), "violated": r.violated or r.errors[:1],
-                    "states": r.distinct, "wall_s": round(r.wall, 1)})
-        log("[%s] deviation %s=FALSE -> %s (%s)" % (kind, d, "counterexample" if not r.ok else "NO counterexample", r.violated))
+        found = None
+        for base in K["model_cfg"]["quick"]:
+            cfg = cfg_with(base, work, "dev-%s-%s" % (d, base), {d: "FALSE"})
+            r = tlc(K["model"], cfg, work, workers=8, timeout=1800, xmx="8g")
+            if not r.ok:
+                found = {"constant": d, "cfg": base, "counterexample_found": True,
+                         "violated": r.violated or r.errors[:1], "states": r.distinct, "wall_s": round(r.wall, 1)}
+                break
+        out.append(found or {"constant": d, "counterexample_found": False})
+        log("[%s] deviation %s=FALSE -> %s" % (kind, d, found if found else "NO counterexample"))
     return out
